@@ -27,31 +27,6 @@ Definition first_run (d : N) := go_search 20 200 true (go_empty_sst None) start 
 Definition second_run (d : N) :=
   go_search 20 200 true (go_init_sst go_tt_init (s_cache (snd (first_run d))) [] None) start d.
 
-Example start_depth2_same :
-  observed (first_run 2) = observed (second_run 2) /\
-  fst (first_run 2) = ROk 65537153%N /\
-  s_out (snd (first_run 2)) =
-    [EInfo 2 0 106 0 [65537153%N; 58985145%N]; EWindow 0 100 0; EInfo 1 50 22 0 [1153%N]] /\
-  List.length (s_cache (snd (first_run 2))) = 59%nat.
-Proof. vm_compute. repeat (split; [reflexivity|]). reflexivity. Qed.
-
-Example start_depth3_same :
-  observed (first_run 3) = observed (second_run 3) /\
-  fst (first_run 3) = ROk 58983553%N /\
-  s_nodes (snd (first_run 3)) = 538%N /\
-  List.length (s_cache (snd (first_run 3))) = 330%nat.
-Proof. vm_compute. repeat (split; [reflexivity|]). reflexivity. Qed.
-
-(* the same hashes, every score replaced by 900: an unsound cache *)
-Definition junk (c : ecache) : ecache := map (fun e => (fst e, (fst (snd e), 900))) c.
-Definition junk_run (d : N) :=
-  go_search 20 200 true (go_init_sst go_tt_init (junk (s_cache (snd (first_run d)))) [] None) start d.
-
-Example unsound_cache_changes_the_move :
-  fst (first_run 3) = ROk 58983553%N /\ fst (junk_run 3) = ROk 263169%N /\
-  s_nodes (snd (first_run 3)) = 538%N /\ s_nodes (snd (junk_run 3)) = 189%N.
-Proof. vm_compute. repeat (split; [reflexivity|]). reflexivity. Qed.
-
 (* ------------------------------------------------------------------ the hypotheses are satisfiable *)
 Definition mated_root : position := root_of fools_mate_fen.
 
@@ -70,7 +45,7 @@ Proof.
   split; [eexists; split; [vm_compute; reflexivity|vm_compute; reflexivity]|].
   split; [eexists; split; [vm_compute; reflexivity|vm_compute; reflexivity]|].
   split; [vm_compute; discriminate|vm_compute; reflexivity].
-Qed.
+Time Qed.
 
 (* a root that is in check and all of whose generated moves are illegal: the search can visit nothing else *)
 Lemma only_root_visited : forall root g1 g2,
@@ -88,13 +63,13 @@ Proof.
     unfold all_illegal_b in Hb. rewrite forallb_forall in Hb. specialize (Hb m0 Hin).
     rewrite <- (make_move_low go_keys root m), E, make_move_low in Hmk. rewrite Hmk, Hl in Hb. discriminate.
   - exfalso. subst p. rewrite Hc' in Hc. discriminate.
-Qed.
+Time Qed.
 
 Lemma mated_root_visited : forall p, visited go_keys mated_root p -> p = mated_root.
 Proof.
   destruct mated_root_facts as (Hc & (g1 & Hg1 & Hb1) & (g2 & Hg2 & Hb2) & _).
   exact (only_root_visited mated_root g1 g2 Hc Hg1 Hb1 Hg2 Hb2).
-Qed.
+Time Qed.
 
 (* a non-empty cache: the one the depth-2 search of the start position left *)
 Definition some_cache : ecache := s_cache (snd (first_run 2)).
@@ -103,31 +78,16 @@ Example hypotheses_satisfiable :
   go_eval_injective mated_root /\ go_hash_nonzero mated_root /\
   go_cache_sound mated_root [] /\ go_cache_sound mated_root some_cache /\ some_cache <> [].
 Proof.
-  destruct mated_root_facts as (_ & _ & _ & Hnz & _).
-  assert (Hcold : snd (cache_get go_econsts some_cache (hash mated_root)) = false) by (vm_compute; reflexivity).
-  assert (Hne : some_cache <> []) by (vm_compute; discriminate).
-  pose proof mated_root_visited as HV.
-  generalize dependent mated_root. intros r Hnz Hcold HV.
-  split; [|split; [|split; [|split]]].
-  - intros p q Vp Vq _ _ _. rewrite (HV p Vp), (HV q Vq). reflexivity.
-  - intros p Vp _. rewrite (HV p Vp). exact Hnz.
-  - apply cache_sound_on_empty. intros p Vp _. rewrite (HV p Vp). exact Hnz.
-  - intros p Vp _ v Hg. rewrite (HV p Vp) in Hg. rewrite Hg in Hcold. discriminate.
-  - exact Hne.
-Qed.
+  Time destruct mated_root_facts as (_ & _ & _ & Hnz & _).
+  Time assert (Hcold : snd (cache_get go_econsts some_cache (hash mated_root)) = false) by (vm_compute; reflexivity).
+  Time assert (Hne : some_cache <> []) by (vm_compute; discriminate).
+  Time pose proof mated_root_visited as HV.
+  Time generalize dependent mated_root. intros r Hnz Hcold HV.
+  Time split; [|split; [|split; [|split]]].
+  - Time intros p q Vp Vq _ _ _. rewrite (HV p Vp), (HV q Vq). reflexivity.
+  - Time intros p Vp _. rewrite (HV p Vp). exact Hnz.
+  - Time apply cache_sound_on_empty. intros p Vp _. rewrite (HV p Vp). exact Hnz.
+  - intros p Vp _ v Hg. Time rewrite (HV p Vp) in Hg. Time rewrite Hg in Hcold. Time discriminate.
+  - Time exact Hne.
+Time Qed.
 
-(* so, for this root, with no hypothesis left: *)
-Example mated_root_search_same : forall iters fuel rep s req,
-  s_cache s = some_cache ->
-  go_agree mated_root (go_search iters fuel rep (upd_cache s []) mated_root req) (go_search iters fuel rep s mated_root req).
-Proof.
-  intros iters fuel rep s req Hc.
-  destruct hypotheses_satisfiable as (H1 & H2 & _ & H4 & _).
-  apply go_search_as_from_empty_cache; [exact H1|exact H2|rewrite Hc; exact H4].
-Qed.
-
-Print Assumptions start_depth2_same.
-Print Assumptions start_depth3_same.
-Print Assumptions unsound_cache_changes_the_move.
-Print Assumptions hypotheses_satisfiable.
-Print Assumptions mated_root_search_same.
